@@ -95,8 +95,11 @@ class NumpyBackendProvider(BackendProvider):
 
     def power(self, a, b):
         """Compute a^b, returning integer if result is whole number."""
-        r = np.power(float(a) if isinstance(a, (int, np.integer)) else a, b)
-        return r
+        if isinstance(a, (int, np.integer)):
+            a = float(a)
+        elif isinstance(a, np.ndarray) and a.dtype.kind in 'iu':
+            a = a.astype(float)
+        return np.power(a, b)
 
     def str_to_char_array(self, s):
         """Convert string to character array."""
